@@ -1,4 +1,5 @@
 import KoordVerif.Model.C19
+import KoordVerif.Model.C19Boot
 import KoordVerif.Generated.C19
 /-
 Tie lemmas: the bound used by the model's `Parse` and by theorem `cpuset_roundtrip` (4096) is the
@@ -56,5 +57,54 @@ theorem tie_q_fallbackIsDefault : C19.qFallbackIsDefault = true := by decide
 
 /-- the feature gates the model assumes off are off by default -/
 theorem tie_q_gatesOff : C19.qGatesOff = true := by decide
+
+/-! ### ext2: reserve-pod merge order (Model/C19Boot.lean `reservePodAnnots`) and start-up registrations -/
+
+/-- NewReservePod: the template's ObjectMeta is copied FIRST, then the object's own labels and annotations are written
+    over it by loops whose body is the plain assignment `pod.X[k] = v` and nothing else (no condition: the object's own
+    value wins for EVERY key — theorem reserve_pod_reads_own_allocation), then the adapter's four keys
+    (`Boot.fixedKeys`).  Canonical w.r.t. renames of the two variables and reorderings of independent statements. -/
+theorem tie_rpod_merge : C19.rpodLoops = ["range:Annotations[set]", "range:Labels[set]"] ∧
+    C19.rpodTemplateCopiedFirst = true ∧ C19.rpodOwnWritesAfterMerge = true := by decide
+
+theorem tie_rpod_own_writes : C19.rpodOwnWrites =
+    ["set:Annotations[AnnotationIsPreAllocation]", "set:Annotations[AnnotationReservationName]",
+     "set:Annotations[AnnotationReservationNode]", "set:Annotations[AnnotationReservePod]"] ∧
+    Boot.fixedKeys.length = 4 := by decide
+
+/-- every entry point of ReservationToPodEventHandler converts through NewReservePod (old and new object on update) -/
+theorem tie_rpod_adapter_calls : C19.rpodAdapterCalls = [("OnAdd", 1), ("OnUpdate", 2), ("OnDelete", 1)] := by decide
+
+/-- PreBindReservation persists on the Reservation object it is given (not on its template) -/
+theorem tie_prebind_reservation_target : C19.preBindReservationTarget =
+    [("nodenumaresource", "the-reservation-parameter"), ("deviceshare", "the-reservation-parameter")] := by decide
+
+/-- every informer registration that rebuilds allocation state (deviceshare pods + reservations + devices,
+    nodenumaresource pods + reservations + topology, reservation plugin reservations + pods, elasticquota quotas +
+    nodes + pods) goes through ForceSyncFromInformer(WithReplace), i.e. is collected for the handlers-sync barrier:
+    the model's `inBarrier := true` for every registration (hypothesis `hall` of barrier_covers_rebuild). -/
+theorem tie_boot_registrations : C19.bootRegistrations =
+    [("deviceshare.registerPodEventHandler", ["ForceSyncFromInformer:Pods", "ForceSyncFromInformer:Reservations"]),
+     ("deviceshare.registerDeviceEventHandler", ["ForceSyncFromInformer:Devices"]),
+     ("nodenumaresource.registerPodEventHandler", ["ForceSyncFromInformer:Pods", "ForceSyncFromInformer:Reservations"]),
+     ("nodenumaresource.registerNodeResourceTopologyEventHandler", ["ForceSyncFromInformer:NodeResourceTopologies"]),
+     ("reservation.registerReservationEventHandler", ["ForceSyncFromInformer:Reservations"]),
+     ("reservation.registerPodEventHandler", ["ForceSyncFromInformer:Pods"]),
+     ("elasticquota.New", ["ForceSyncFromInformer:Nodes", "ForceSyncFromInformer:Pods",
+        "ForceSyncFromInformerWithReplace:ElasticQuotas"])] := by decide
+
+/-- ForceSyncFromInformer registers the handler and then collects the registration -/
+theorem tie_boot_forcesync : C19.bootForceSync = ["AddEventHandlerWithResyncPeriod", "addRegistration"] := by decide
+/-- the kube factory wrapper collects every registration made on its informers, also plain AddEventHandler -/
+theorem tie_boot_wrapper : C19.bootWrapperAdd = ["AddEventHandlerWithResyncPeriod", "addRegistration"] ∧
+    C19.bootWrapperAddPlain = ["AddEventHandlerWithResyncPeriod"] ∧ C19.bootKubeFactoryWrapped = true := by decide
+/-- the barrier polls HasSynced over all collected registrations (model: `barrierOpen`) -/
+theorem tie_boot_barrier : C19.bootBarrier = ["PollUntilContextCancel", "GetRegistrations", "HasSynced"] := by decide
+/-- Run: plugin factories start + sync, hooks, main factories start, stores sync, THEN the two handler barriers,
+    then the after-sync hooks (the scheduling loop starts after this function returned) -/
+theorem tie_boot_server_order : C19.bootServerOrder =
+    ["Start", "WaitForCacheSync", "frameworkexthelper.RunAfterPluginInformersSynced", "Start", "Start", "Start", "Start",
+     "WaitForCacheSync", "WaitForCacheSync", "WaitForCacheSync", "WaitForCacheSync", "sched.WaitForHandlersSync",
+     "frameworkexthelper.WaitForHandlersSync", "frameworkexthelper.RunAfterAllInformersSynced"] := by decide
 
 end KoordVerif.C19
